@@ -227,6 +227,11 @@ class Evaluator:
                     lo = self.one(sl.lower, at) if sl.lower is not None else None
                     hi = self.one(sl.upper, at) if sl.upper is not None else None
                     if step == -1:
+                        if lo is None and hi is not None and hi[0] == "int" and isinstance(hi[1], str) and base[0] == "path":
+                            # p[:k-1:-1] walks from the end down to index k: the reversed tail p[k:] (k >= 1)
+                            k = {"L-1": "L", "L-2": "L-1", "L": "L+1"}.get(hi[1], "%s+1" % hi[1])
+                            out.append((V("slice", base[1], k, True), g))
+                            continue
                         if lo is not None or hi is not None:
                             raise _Undecided("reversing slice with bounds `%s`" % norm(e))
                         out.append((self._reverse(base, e), g))
@@ -326,6 +331,50 @@ class Evaluator:
             pair, where = (g.target, g.iter), comps[0]
             kept = comps[0].elt
             test = g.ifs
+        elif len(loops) == 1 and not comps and isinstance(loops[0].iter, ast.Call) and norm(loops[0].iter.func) == "range" \
+                and isinstance(loops[0].target, ast.Name):
+            # for i in range(min(len(a), len(b))): x = a[i]; if x is b[i]: keep x
+            lp = loops[0]
+            idx = lp.target.id
+            rng = lp.iter.args
+            okr = len(rng) == 1 and isinstance(rng[0], ast.Call) and norm(rng[0].func) == "min" and len(rng[0].args) == 2 and sorted(
+                norm(a) for a in rng[0].args) == sorted("len(%s)" % q for q in ps)
+            local = {}
+            test, kept, brk = None, None, False
+            for st_ in lp.body:
+                if isinstance(st_, ast.Assign) and len(st_.targets) == 1 and isinstance(st_.targets[0], ast.Name):
+                    local[st_.targets[0].id] = st_.value
+                elif isinstance(st_, ast.If) and test is None:
+                    test = st_.test
+                    apps = [c for c in ast.walk(st_) if isinstance(c, ast.Call) and isinstance(c.func, ast.Attribute) and c.func.attr == "append"]
+                    kept = apps[0].args[0] if len(apps) == 1 and apps[0].args else None
+                    if st_.orelse and not (len(st_.orelse) == 1 and isinstance(st_.orelse[0], ast.Break)):
+                        raise _Undecided("loop form of %s" % h.qual)
+                else:
+                    raise _Undecided("loop form of %s" % h.qual)
+
+            def sub(e_):
+                class R(ast.NodeTransformer):
+                    def visit_Name(self, node):
+                        if node.id in local and isinstance(node.ctx, ast.Load):
+                            return local[node.id]
+                        return node
+                import copy as _c
+                return R().visit(_c.deepcopy(e_))
+            if not okr or test is None or kept is None:
+                raise _Undecided("loop form of %s" % h.qual)
+            t2, k2 = sub(test), sub(kept)
+            want = sorted("%s[%s]" % (q, idx) for q in ps)
+            good = isinstance(t2, ast.Compare) and len(t2.ops) == 1 and isinstance(t2.ops[0], ast.Is) \
+                and sorted([norm(t2.left), norm(t2.comparators[0])]) == want
+            if not good:
+                ctx.viol("K3", h, test, "a position is kept under `%s`, not exactly when the two nodes at that position are the same "
+                         "object" % norm(t2), construct="%s keeps pairs under a different test" % h.qual)
+            elif norm(k2) not in want:
+                ctx.viol("K3", h, lp, "the common part is built from `%s`, not from the paired nodes" % norm(k2), construct="%s element" % h.qual)
+            else:
+                ctx.inst("K3", h, lp, "positions of the two paths compared by index and kept when identical")
+            return
         elif len(loops) == 1 and not comps:
             lp = loops[0]
             pair, where = (lp.target, lp.iter), lp
